@@ -866,10 +866,20 @@ class NetCDFWrite(IOWrite):
 
         create = not self._already_in_file(list_variable)
 
+        list_compress = g.setdefault("list_variable_compress", {})
+        if not create:
+            # An equal list variable is already in the file, but it
+            # can only be shared if it compresses the same netCDF
+            # dimensions.
+            ncvar = g["seen"][id(list_variable)]["ncvar"]
+            if list_compress.get(ncvar) != compress:
+                create = True
+
         if create:
             ncvar = self._create_netcdf_variable_name(
                 list_variable, default="list"
             )
+            list_compress[ncvar] = compress
 
             # Create a new dimension
             self._write_dimension(
